@@ -509,4 +509,6 @@ class STNPlan(plans.plan.Plan):
             duration = None if end is None else end - start
             ttp_actions.append((start, ai, duration))
 
-        return plans.time_triggered_plan.TimeTriggeredPlan(ttp_actions)
+        return plans.time_triggered_plan.TimeTriggeredPlan(
+            ttp_actions, self._environment
+        )
